@@ -21,7 +21,8 @@ func init() { register(c03{}); register(c07{}) }
 
 func (c03) ID() string { return "C03" }
 func (c03) Rule() string {
-	return "jpegls/lossless.Encode -> Decode, byte and geometry equality. cases: (enum) complete enumeration of all images of small geometries at P=2..4 (batched, distinct by construction); " +
+	return "(codec) 2..4 frames with flat areas in one Encode call of the registered .80 codec, each frame decoded by the codec and by lossless.Decode; (afterlse) the round trip right after decoding foreign streams that carry an LSE segment with other thresholds. " +
+		"jpegls/lossless.Encode -> Decode, byte and geometry equality. cases: (enum) complete enumeration of all images of small geometries at P=2..4 (batched, distinct by construction); " +
 		"(cell) P in 2..16 x components {1,3} x content classes (noise, two-level, alternating extremes, runs with outliers, runs ending at the line end, ramps, width/height 1) x boundary sizes; (reset) images with >64 samples per context; (long) 65535x1 / 1x65535 incl. constant (RUNindex 31); (runlimit) flat run of 1..24(40) samples, one outlier sweeping the whole range in both polarities, 1..3 rows (run-interruption code at every prefix length around its escape limit). " +
 		"non-trivial: the encoder accepted the image and the decoder output was compared; distinct = distinct descriptor"
 }
@@ -116,7 +117,65 @@ func (c03) Build(tier string, seed uint64) []any {
 			cs = append(cs, &imgCase{Gen: "area", W: g[0], H: g[1], C: gen.Pick(r, 1, 3), P: p, Class: gen.Pick(r, "noise", "smooth", "runs", "lowent"), CSeed: r.U64()})
 		}
 	}
+	// (codec) 2..4 frames with flat areas in one Encode call of the registered .80 codec
+	// (afterlse) the round trip right after decoding foreign streams that carry an LSE segment
+	nCodec := 60
+	if th {
+		nCodec = 900
+	}
+	for k := 0; k < nCodec; k++ {
+		r := gen.Sub(seed, "C03", "codec", k)
+		g := "codec"
+		if k%3 == 2 {
+			g = "afterlse"
+		}
+		cs = append(cs, &imgCase{Gen: g, W: 4 + r.Intn(60), H: 4 + r.Intn(40), C: gen.Pick(r, 1, 1, 3), P: gen.Pick(r, 8, 8, 12, 16, 2+r.Intn(15)),
+			Class: gen.Pick(r, "runs", "runs", "twolevel", "smooth", "edges", "lowent", "runend", "noise"), Aux: 2 + r.Intn(3), CSeed: r.U64()})
+	}
 	return cs
+}
+
+// c03Codec judges a multi-frame round trip through the registered .80 codec.
+func c03Codec(c *imgCase) mon.Result {
+	res := mon.Hold()
+	ba := 8
+	if c.P > 8 {
+		ba = 16
+	}
+	cd := Codec(".80")
+	info := FrameInfo(c.W, c.H, ba, c.P, c.C, 0, 0)
+	var frames [][]byte
+	classes := []string{c.Class, "runs", "noise", "twolevel"}
+	for f := 0; f < c.Aux; f++ {
+		frames = append(frames, gen.Pack(gen.Content(gen.New(gen.Mix(c.CSeed, uint64(f))), classes[f%len(classes)], c.W, c.H, c.C, c.P, 0), c.P))
+	}
+	enc := NewPD(info)
+	if err := cd.Encode(NewPD(info, frames...), enc, nil); err != nil {
+		return mon.Violation("encode-error", err.Error())
+	}
+	dec := NewPD(info)
+	if err := cd.Decode(NewPD(info, enc.Frames...), dec, nil); err != nil {
+		return mon.Violation("decode-error", err.Error())
+	}
+	if len(enc.Frames) != len(frames) || len(dec.Frames) != len(frames) {
+		return mon.Violation("frame-count", fmt.Sprintf("%d encoded / %d decoded frames for %d inputs", len(enc.Frames), len(dec.Frames), len(frames)))
+	}
+	for f := range frames {
+		out, dw, dh, dc, dp, err := jlsl.Decode(enc.Frames[f])
+		if err != nil {
+			return mon.Violation("decode-error", fmt.Sprintf("frame %d: %v", f, err))
+		}
+		if dw != c.W || dh != c.H || dc != c.C || dp != c.P {
+			return mon.Violation("geometry", fmt.Sprintf("frame %d: decoder reports %dx%d c=%d P=%d", f, dw, dh, dc, dp))
+		}
+		for _, o := range [][]byte{out, dec.Frames[f]} {
+			if i := firstDiff(o, frames[f]); i >= 0 {
+				return mon.Violation("pixel-mismatch", fmt.Sprintf("frame %d of %d (codec-level call) differs from its source at byte %d (len %d vs %d)", f, len(frames), i, len(o), len(frames[f])))
+			}
+		}
+		res.AddFeat("codec_frames", 1)
+	}
+	return res
 }
 
 func c03RT(s []int, w, h, c, p int) (class, msg string, n int) {
@@ -147,6 +206,14 @@ func (c03) Exec(d any) mon.Result {
 	res := mon.Hold()
 	res.Cell(c.cell())
 	res.Cell("gen=" + c.Gen)
+	if c.Gen == "codec" {
+		r := c03Codec(c)
+		r.Cells = res.Cells
+		return r
+	}
+	if c.Gen == "afterlse" {
+		c07ForeignLSE(c)
+	}
 	if c.Gen == "enum" {
 		var fc, fm string
 		res.Sub = c.enumerate(func(s []int) bool {
